@@ -73,6 +73,14 @@ def _attrs(rng, ids):
         out.append(["id", {"t": "str", "s": ids.next("i")}])
     if rng.random() < 0.1:
         out.append(["class", {"t": "html", "s": payload(rng, ids, "a")}])
+    if rng.random() < 0.12:
+        # several values for ONE name (merged by the library), trusted ones with white space at their own ends: every byte of
+        # a trusted value is kept
+        edge = rng.choice([" ", "  ", "\t", ""])
+        out.append(["data-m", {"t": "html", "s": edge + payload(rng, ids, "a").replace('"', "") + edge}])
+        out.append(["data-m", {"t": rng.choice(["str", "html"]), "s": ids.next("m")}])
+        if rng.random() < 0.5:
+            out.append(["data_m", {"t": "html", "s": ids.next("m") + edge}])
     return out
 
 
